@@ -1532,7 +1532,7 @@ fn main() {
         let s = rp["case_seed"].as_u64().expect("case_seed");
         run_program(s, scratch.path(), max_ops, &mut total);
     } else {
-        let n = args.by_tier(240u64, 12_000u64);
+        let n = args.by_tier(1_000u64, 20_000u64);
         let sp = scratch.path().to_path_buf();
         let rep = par_cases(args.threads, args.seed, n, args.budget(75, 900), |_i, s, r| run_program(s, &sp, max_ops, r));
         total.merge(rep);
@@ -1559,14 +1559,14 @@ fn main() {
             vec![]
         } else {
             vec![
-                ("programs", args.by_tier(40, 1_000)),
-                ("decisions_checked", args.by_tier(800, 20_000)),
-                ("allowed_share_permille", 250),
-                ("denied_share_permille", 250),
-                ("expired_ttl_decisive", args.by_tier(10, 200)),
-                ("at_rest_scans", args.by_tier(80, 2_000)),
-                ("audit_records_checked", args.by_tier(2_000, 50_000)),
-                ("error_messages_checked", args.by_tier(300, 8_000)),
+                ("programs", args.by_tier(150, 3_000)),
+                ("decisions_checked", args.by_tier(4_000, 80_000)),
+                ("allowed_share_permille", 300),
+                ("denied_share_permille", 300),
+                ("expired_ttl_decisive", args.by_tier(40, 800)),
+                ("at_rest_scans", args.by_tier(400, 8_000)),
+                ("audit_records_checked", args.by_tier(10_000, 200_000)),
+                ("error_messages_checked", args.by_tier(1_500, 30_000)),
             ]
         },
         exhaustive: false,
